@@ -67,3 +67,14 @@ pub enum E1EvolvedCase {
     #[evolution(FieldAdded("extra", 1u8))]
     Grown { base: u16, extra: u8 },
 }
+
+#[derive(BinaryCodec)]
+pub enum E0TransientField {
+    Seg(u8, #[transient(0u8)] u8, u16),
+    Named {
+        #[transient(1u8)]
+        a: u8,
+        b: u8,
+    },
+    Last,
+}
